@@ -91,6 +91,24 @@ TetrahedralMeshTopologyKernel::add_cell(std::vector<HalfFaceHandle> _halffaces, 
         }
     }
 
+    if (_topologyCheck) {
+        // Four triangles whose halfedges match pairwise need not form a
+        // tetrahedron (e.g. two disjoint "pillows" of two triangles each):
+        // a tetrahedron has exactly four vertices.
+        std::set<VertexHandle> vhs;
+        for(const auto &hfh: _halffaces) {
+            for(const auto &heh: TopologyKernel::halfface(hfh).halfedges()) {
+                vhs.insert(TopologyKernel::from_vertex_handle(heh));
+            }
+        }
+        if (vhs.size() != 4) {
+#ifndef NDEBUG
+            std::cerr << "TetrahedralMeshTopologyKernel::add_cell(): The halffaces span " << vhs.size() << " vertices instead of four; not adding cell." << std::endl;
+#endif
+            return TopologyKernel::InvalidCellHandle;
+        }
+    }
+
     return TopologyKernel::add_cell(std::move(_halffaces), _topologyCheck);
 }
 
